@@ -198,6 +198,19 @@ def _w1(ctx: Context) -> None:
                     src, dst = rt, T.of(cfg, n, c.args[0])
             if src is not None:
                 moves.append((n, src, dst))
+    # the target is never the SOURCE of a move either (`os.replace(path, path.bak)` before the new file is moved in): between
+    # the two renames no pairing file exists, and a missing file is loaded as 'no pairings'
+    for n, src, dst in moves:
+        if is_target(src):
+            ck.violated(
+                "C20.W1",
+                f"{ctx.fkey(f)}:target-moved-away",
+                f"save_data moves the pairing file itself away (`{n.text()[:70]}`): until the new content is moved in there is no pairing file, a crash "
+                "in between leaves none, and a missing file is loaded as 'no pairings' (the next save then overwrites the copy as well)",
+                ctx.loc(f, n),
+                [f"{f.module.relpath}:{n.lineno}: {n.text()}", "  crash point: after this statement, before the move of the new file"],
+                "save_data never moves the target away",
+            )
     for n, pt, how in tmp_terms:
         good = [m for m in moves if strip_sites(m[1]) == strip_sites(pt) and is_target(m[2])]
         if not good:
@@ -269,14 +282,16 @@ def _x1(ctx: Context) -> None:
              "aiohomekit.hkjson:JSON_DECODE_EXCEPTIONS", f"JSON_DECODE_EXCEPTIONS = {sorted(decode)} lacks ValueError", "aiohomekit/hkjson.py:1")
     # reading the (text-mode) file can fail with UnicodeDecodeError - a truncation inside a multi-byte sequence: the read
     # must sit in the same guarded region as the parse
-    reads = [n for n in cfg.nodes for c in ctx.calls(n) if isinstance(c.func, ast.Attribute) and c.func.attr in ("read", "readlines", "readline") and not c.args]
+    reads = [n for n in cfg.nodes for c in ctx.calls(n) if isinstance(c.func, ast.Attribute) and (
+        (c.func.attr in ("read", "readlines", "readline") and not c.args) or c.func.attr == "read_text")]
+    binary_reads = [n for n in cfg.nodes for c in ctx.calls(n) if isinstance(c.func, ast.Attribute) and c.func.attr == "read_bytes"]
     tries = [fr[1] for fr in ln.frames if fr[0] == "try" and fr[2] == "body"]
     for rn in reads:
         inside = any(fr[0] == "try" and fr[2] == "body" and fr[1] in tries for fr in rn.frames)
         ck.check("C20.X1", inside, "the cache file is read inside the guarded region (a truncated multi-byte sequence raises UnicodeDecodeError, a ValueError)",
                  f"{ctx.fkey(f)}:read-outside-try", "CharacteristicCacheFile.__init__ reads the cache file outside the try that tolerates corruption: a cache cut inside a multi-byte "
                  "UTF-8 sequence (or containing invalid bytes) raises UnicodeDecodeError and fails start-up", ctx.loc(f, rn))
-    ck.require_min("C20.X1", "reads of the cache file", len(reads), 1)
+    ck.require_min("C20.X1", "reads of the cache file", len(reads) + len(binary_reads), 1)
     # every class the parse can raise goes to a handler that does not raise
     classes = {exc for (_d, l, exc) in ln.succ if l == "x"}
     uncaught = {exc for (d, l, exc) in ln.succ if l == "x" and cfg.nodes[d].kind != "handler"}
